@@ -3,7 +3,7 @@ NEXT TNext
 INVARIANT Report
 CHECK_DEADLOCK FALSE
 CONSTANTS
-  MaxCtx = 12
+  MaxCtx = 24
   MaxRegs = 1000000
   Names <- SuiteNames
   Types <- SuiteTypes
